@@ -62,7 +62,7 @@ META = {
               "(2) random lengths up to 1e5 with random slices, loops (incl. loop end == length, start inside/after the loop), rates, rate pairs; (3) long sounds at rate 1 with seek_to/seek_by/set_loop_region at random callback boundaries. "
               "Oracles: bit-exact index sequence at |rate|*sound_rate*dt == 1; 4-point Hermite of the model sequence at the f64-accumulated position otherwise (8e-6 relative); any sample >= 2.5e5 is an out-of-slice read; Stopped not before the last frame was heard and reported by the callback containing sequence index last+4; "
               "after commands every consecutive heard pair obeys the loop successor rule, seeks land within one frame of the request once the 4-frame window has refilled, reported position within one frame of the heard frame. "
-              "A case is distinct and non-trivial when its expected index sequence (first 64) x rate x chunk class x rate-pair class is new and non-empty. Command cases also run on slices of longer buffers with open-ended run-time loop regions (a looping sound must not stop); slices may extend past the audio data; a reversed sound above its loop is seeked to frames at or after the loop end. The slice is given in one of the equivalent ways: the field, .slice(a..b), a second .slice() replacing an earlier one, and the open-ended a.. when it ends at the end of the data. A loop that runs to the end of the sound is given, every other time, in its open-ended form (.. / a..)."),
+              "A case is distinct and non-trivial when its expected index sequence (first 64) x rate x chunk class x rate-pair class is new and non-empty. Command cases also run on slices of longer buffers with open-ended run-time loop regions (a looping sound must not stop); slices may extend past the audio data; a reversed sound above its loop is seeked to frames at or after the loop end. The slice is given in one of the equivalent ways: the field, .slice(a..b), a second .slice() replacing an earlier one, and the open-ended a.. when it ends at the end of the data. A loop that runs to the end of the sound is given, every other time, in its open-ended form (.. / a..). While playback is inside a loop, seek_to a frame outside it (before the loop start or at/after the loop end; in half of the cases an exact multiple of the loop length away): the landing frame is the target carried into the loop by whole loop lengths, and a looping sound never reports Stopped, a pending seek included."),
         exhaustive_quick=True,
         exhaustive_thorough=True,
         domain="valid slices (start<=end<=frames), loop regions with start<end<=len; degenerate regions belong to C01; excluded while listed as known finding: reverse with start position >= length",
@@ -81,7 +81,7 @@ META = {
               "(1e-9 for constant speed; for tweens the interval spanned by the speed at the chunk's boundaries, interpolated in the target's unit), paused clocks bit-identical, stopped clocks zero, ticking() correct. "
               "Monitor 2 (scheduling): a sound start, a volume tween start or a resume_at scheduled for a whole or fractional clock time; the event must begin exactly at the first frame of the internal buffer during which the clock (model: constant speed, start delay, pause window) reaches the time - never later, never while paused or short of it; a dropped clock cancels the waiting sound within 3 callbacks. "
               "Monitor 3 (handle reads): audio thread running callbacks vs a thread calling time() (and stop()), parked at the hooks between the two stores / two loads; all interleavings enumerated depth-first for (callbacks x reads) up to 2x2 (quick) / 3x3 (thorough) plus random schedules of 6x6; every read must equal a value published before or during it and reads must not go backwards while the clock runs. "
-              "A case is distinct when its history class / schedule trace is new. Also stop()+start() and pause()+start() within one interval, and a clock whose speed is mapped from a moving modulator (same-chunk value). Under Miri / TSan the depth-first enumeration is additionally bounded by the shard's time budget (what was not reached is reported as not enumerated). Monitor 2b: a clock that counted 2^53..2^62 ticks in one buffer and then moves 1/8..1/2 tick per buffer; a sound scheduled 1-3 ticks ahead begins in the buffer in which the clock (read back from the handle, compared ticks first, then fraction) reaches that tick, at most one buffer early. Monitor 2c: tweener-modulator transitions scheduled with a delay, on a running clock and on an idle clock (oracle shared with C17)."),
+              "A case is distinct when its history class / schedule trace is new. Also stop()+start() and pause()+start() within one interval, and a clock whose speed is mapped from a moving modulator (same-chunk value). Under Miri / TSan the depth-first enumeration is additionally bounded by the shard's time budget (what was not reached is reported as not enumerated). Monitor 2b: a clock that counted 2^53..2^62 ticks in one buffer and then moves 1/8..1/2 tick per buffer; a sound scheduled 1-3 ticks ahead begins in the buffer in which the clock (read back from the handle, compared ticks first, then fraction) reaches that tick, at most one buffer early. Monitor 2c: tweener-modulator transitions scheduled with a delay, on a running clock and on an idle clock (oracle shared with C17). Monitor 1 also issues bursts of two or three start/pause/stop calls between two callbacks in every order: the last call decides whether the clock ticks, a stop anywhere in the burst resets the time."),
         domain="speeds 0.5..3000 ticks/s; excluded while listed as known findings: tweens scheduled on the clock's own time (monitor 1); torn reads are counted and reported as the known finding, any other unexplained read is a violation",
         assumptions=["interleavings are enumerated at hook granularity (between the atomic operations of ClockShared); the operations themselves are atomic", "the other-clock start of a speed tween may be observed one chunk early or late depending on clock update order (modelled as an interval)"],
         quick=[rel(30)],
@@ -224,7 +224,7 @@ META = {
         rule=("Random parameter cells x 8 sample rates. Filter: 3 sine probes vs analytic |H| of the bilinear (pre-warped) SVF, plus mapping-free checks at the requested hertz: LP/HP gains cross at the cutoff, notch nulls there, band-pass peaks there, LP DC gain and HP Nyquist gain 0 dB +-0.05. "
               "EQ: bell centre gain / low-shelf DC gain / high-shelf Nyquist gain == requested dB +-0.1 with the opposite band at 0 dB, 3 sine probes vs SvfLinearTrapOptimised2 response. Volume/panning/distortion: point-wise against the dB, equal-power and clip laws (4e-6). "
               "Delay: two impulses -> echoes at exact multiples of floor(delay*sr) frames scaled by (feedback x nested volume)^k and the sqrt mix law (1e-5). Reverb: sample-by-sample against an independent f64 Freeverb network (tunings x sr/44100, spread 23, 8 combs, 4 all-passes) and tail-energy decay for feedback < 1. "
-              "Compressor: below threshold unchanged, steady-state reduction (level-threshold)(1-1/ratio) dB +-0.1, attack/release reach 1-1/e within +-5 %. A case is distinct when its (effect, mode/kind, sample rate, coarse parameter cell) is new. Compressor attack/release shorter than a sample period against the one-pole model; a hard/soft clip in a delay's feedback loop (delay line -> effect -> feedback gain). One compressor case in four at the far end of the ranges: thresholds down to -90 dB with ratios 8..200 (reductions of 60 dB and more) and make-up gains -70..+40 dB; test levels are plain 10^(dB/20). A low-pass filter in the delay's feedback loop, input cut into slices of 1..ibs frames: compared frame by frame (2e-4) with a model line whose reads pass, once and in order, through a second instance of the same filter. The compressor's attack time linked to a (mock) modulator through a mapping from a long to a short duration or back: the measured 63 % time equals the interpolated duration (+-6 %)."),
+              "Compressor: below threshold unchanged, steady-state reduction (level-threshold)(1-1/ratio) dB +-0.1, attack/release reach 1-1/e within +-5 %. A case is distinct when its (effect, mode/kind, sample rate, coarse parameter cell) is new. Compressor attack/release shorter than a sample period against the one-pole model; a hard/soft clip in a delay's feedback loop (delay line -> effect -> feedback gain). One compressor case in four at the far end of the ranges: thresholds down to -90 dB with ratios 8..200 (reductions of 60 dB and more) and make-up gains -70..+40 dB; test levels are plain 10^(dB/20). A low-pass filter in the delay's feedback loop, input cut into slices of 1..ibs frames: compared frame by frame (2e-4) with a model line whose reads pass, once and in order, through a second instance of the same filter. The compressor's attack time linked to a (mock) modulator through a mapping from a long to a short duration or back: the measured 63 % time equals the interpolated duration (+-6 %). One compressor step response in three is measured on an instance that processed quiet audio at another device rate first (time constants are seconds whatever the rate was before)."),
         domain="cutoffs 40 Hz..0.45 sr, resonance 0..0.85, Q 0.3..8, gains +-24 dB, delays 1..3000 frames, feedback <= 0 dB, reverb feedback <= 0.98, compressor ratio 1..50, attack 2..100 ms, release 5..300 ms; measurement domains are narrower than C13's so that settling fits the run length",
         assumptions=["reference models were written from the cited sources (Simper/Cytomic SVF papers, Freeverb) and from kira's documentation, not from kira's code paths; the resonance->k mapping (k = 2 - 1.9 res) is taken from the cited baseplug example",
                      "sine gains are measured by quadrature over a whole number of periods after 12 time constants of settling"],
